@@ -148,6 +148,18 @@ func solveOne(o *Obligation, dir string, timeout time.Duration, seed int) *Solve
 	if ans == "error" {
 		res.Output = out
 	}
+	if o.Expect == "sat" {
+		// a cover (vacuity guard) exists to catch "unsat": contradictory assumptions.
+		// With quantified assumptions the solvers rarely answer "sat"; a second solver
+		// gets the same short budget to look for unsat, then the cover is recorded as
+		// undecided (not vacuous within the budget) instead of racing to the full timeout.
+		a2, out2, secs2 := runSolver(context.Background(), solvers[1], file, short, seed)
+		res.Tried = append(res.Tried, fmt.Sprintf("%s:%s:%.2fs", solvers[1].name, a2, secs2))
+		if definitive(a2) {
+			return finish(a2, solvers[1].name, out2, secs2)
+		}
+		return finish(ans, solvers[0].name, out, secs)
+	}
 	// race
 	type r struct {
 		ans, out, solver string
@@ -243,7 +255,9 @@ func solveAll(obls []*Obligation, dir string, timeout time.Duration, seed, jobs 
 		i := i
 		wg.Add(1)
 		sem <- struct{}{}
+		t0 := time.Now()
 		o.Text = o.smt(int(timeout.Milliseconds()))
+		genTextSeconds += time.Since(t0).Seconds()
 		go func() {
 			defer wg.Done()
 			defer func() { <-sem }()
@@ -256,7 +270,12 @@ func solveAll(obls []*Obligation, dir string, timeout time.Duration, seed, jobs 
 		}()
 	}
 	wg.Wait()
+	if os.Getenv("GOVC_PROF") != "" {
+		fmt.Fprintf(os.Stderr, "profile: query text generation %.1fs for %d obligations\n", genTextSeconds, len(obls))
+	}
 }
+
+var genTextSeconds float64
 
 // relaxQuery removes quantified assertions (assumed facts only; the negated goal
 // is the last assert and is kept even if quantified).
